@@ -86,7 +86,24 @@ def _placement(msgs, results, received, via):
     return bad
 
 
-def run_one(devs, budgets, sizes=None, mode="server", via="conn", fin=False, reconnect=False, late_read=False):
+def _is_linktest_prefix(buf):
+    """buf is the first len(buf) <= 14 bytes of a Linktest.req frame (any system bytes)."""
+    pat = bytes([0, 0, 0, 10, 0xFF, 0xFF, 0, 0, 0, 5])
+    return len(buf) <= 14 and bytes(buf[:10]) == pat[:len(buf[:10])]
+
+
+def _linktest_placements(received):
+    """The endpoint's own Linktest.req - complete, or a prefix of it if that write failed - stands before or after the data message, never
+    inside it: every reading of `received` with such a piece removed from the front or the back."""
+    seen = set()
+    for k in range(0, min(14, len(received)) + 1):
+        for cand, piece in ((received[k:], received[:k]), (received[:len(received) - k], received[len(received) - k:])):
+            if _is_linktest_prefix(piece) and cand not in seen:
+                seen.add(cand)
+                yield cand
+
+
+def run_one(devs, budgets, sizes=None, mode="server", via="conn", fin=False, reconnect=False, late_read=False, linktest=False):
     box = {}
 
     def driver(s):
@@ -127,6 +144,11 @@ def run_one(devs, budgets, sizes=None, mode="server", via="conn", fin=False, rec
         results = []
         base = len(peer.rx)
         msgs = []
+        lt = None
+        if linktest and proto is not None:
+            # what the linktest timer thread does when it fires, here while the data message is being written
+            lt = vrt.Thread(target=proto.send_linktest_req, name="linktest-timer")
+            lt.start()
         for i, n in enumerate(sizes):
             if reconnect and i == len(sizes) - 1:
                 # the peer drops the connection and comes back: the last message goes over the new connection of the same object
@@ -168,6 +190,8 @@ def run_one(devs, budgets, sizes=None, mode="server", via="conn", fin=False, rec
             results.append(ok)
         k.send_menu = False
         k.select_menu = False
+        if lt is not None:
+            lt.join()
         box["results"] = results
         box["msgs"] = msgs
         if late_read:
@@ -186,7 +210,7 @@ def run_one(devs, budgets, sizes=None, mode="server", via="conn", fin=False, rec
 
     sched = vrt.run(driver, devs, budgets, max_steps=300000, max_time=600.0, line_points=False)
     res = {"trace": sched.trace, "v": []}
-    case = {"sizes": sizes, "mode": mode, "via": via, "fin": fin, "reconnect": reconnect, "late_read": late_read}
+    case = {"sizes": sizes, "mode": mode, "via": via, "fin": fin, "reconnect": reconnect, "late_read": late_read, "linktest": linktest}
     if sched.harness_failure or sched.driver_exception or box.get("harness"):
         res["harness"] = (sched.harness_failure or sched.driver_exception or box.get("harness"))[-1000:]
         res["obs"] = None
@@ -196,6 +220,12 @@ def run_one(devs, budgets, sizes=None, mode="server", via="conn", fin=False, rec
         res["obs"] = sched.outcome
         return res
     results, received, msgs = box["results"], box["received"], box["msgs"]
+    if linktest:
+        # any reading that places the data message is accepted; if none does, the plain reading is reported
+        for cand in _linktest_placements(received):
+            if _placement(msgs, results, cand, via) is None:
+                received = cand
+                break
     if reconnect and "second_connection_from" in box:
         # first connection: all but the last message; second connection: the last message only, nothing of the earlier ones
         j = box["second_connection_from"]
@@ -264,6 +294,13 @@ def run(ctx):
                       "levels_completed": st["levels_completed"]})
         tot_exec += st["executions"]
         nontrivial += st["executions"] - 1
+    # the linktest timer fires while a data message is being written in pieces (short writes): a second thread that wants to write
+    for cfg in ({"sizes": [17], "mode": "server", "via": "proto", "linktest": True},):
+        st = explore.explore(ctx, run_one, {"env": 2, "sched": 2}, f"c10-linktest-{cfg['sizes']}", opts=cfg, chunk=8)
+        parts.append({"cfg": cfg, "budgets": {"env": 2, "sched": 2}, "executions": st["executions"], "outcomes": st["distinct_outcomes"],
+                      "levels_completed": st["levels_completed"]})
+        tot_exec += st["executions"]
+        nontrivial += st["executions"] - 1
     # a slow peer that reads only after this side closed the connection (graceful close keeps what was accepted; an abortive one would not)
     for cfg in ({"sizes": [17, 3], "mode": "server", "via": "conn", "late_read": True}, {"sizes": [17], "mode": "client", "via": "conn", "late_read": True},
                 {"sizes": [5], "mode": "server", "via": "proto", "late_read": True}):
@@ -291,7 +328,7 @@ def replay(ctx, detail):
     case = detail["case"]
     devs = {int(k): v for k, v in case.get("devs", {}).items()}
     r = run_one(devs, case.get("budgets", {}), sizes=case["sizes"], mode=case["mode"], via=case["via"], fin=case.get("fin", False),
-                reconnect=case.get("reconnect", False), late_read=case.get("late_read", False))
+                reconnect=case.get("reconnect", False), late_read=case.get("late_read", False), linktest=case.get("linktest", False))
     print("replayed:", r.get("obs"))
     ctx.evaluations += 1
     for sig, d in r["v"]:
